@@ -7,9 +7,9 @@ from natsort import natsorted
 _genes = {}
 
 
-def shipped(name, build="hg19"):
-    """Cached shipped (or toy) gene."""
-    key = (name, build)
+def shipped(name, build="hg19", tag=None):
+    """Cached shipped (or toy) gene; a different `tag` gives a separately loaded object."""
+    key = (name, build, tag)
     if key not in _genes:
         from aldy.gene import Gene
         from aldy.common import script_path
